@@ -16,9 +16,9 @@ NOTES = ('Static analysis only: no registered check executes dnssector code or c
          "$VERIF_REPO (default /repo)'s working tree into a fresh temporary target directory. See DESIGN.md. "
          'One known finding is reported on every run (C06: D18, pointer chains deeper than the parser follows; known_findings.json). '
          'The rules were exercised with 180 independently seeded breaking changes (seeded/; wave i hides the defect inside a refactoring '
-         'commit, wave j aims at the clause least likely to be watched) and 87 behaviour-preserving refactors (refactors/: 18 small everyday edits, all silent under all 18 checks; two independent medium '
+         'commit, wave j aims at the clause least likely to be watched) and 105 behaviour-preserving refactors (refactors/: 18 small everyday edits, all silent under all 18 checks; two independent medium '
          'waves, 17 of 18 silent each - the second one 15 of 18 as the checks stood, before anything was adjusted to it; 18 heavy restructurings, 10 '
-         'silent; 15 repaired halves of the hidden-defect wave, 13 silent while their seeded twins alarm); the restructurings that still raise an '
+         'silent; a last wave of 18 larger clean-ups, 10 silent as the checks stood and 11 now; 15 repaired halves of the hidden-defect wave, 13 silent while their seeded twins alarm); the restructurings that still raise an '
          'alarm although the property holds are listed in DESIGN.md section 7 and kept under selftest/pending.')
 PENDING = 'rule engine for this property is not committed yet in this revision of /verif (see DESIGN.md section 6, build order); not claimed until it is'
 CHECKS = {
